@@ -37,10 +37,12 @@ class TLCResult:
 
 
 def _tlc_cmd() -> list[str]:
-    exe = shutil.which("tlc")
-    if exe:
-        return [exe]
-    return ["java", "-XX:+UseParallelGC", "-cp", JAR, "tlc2.TLC"]
+    # the same command as the `tlc` wrapper on PATH, plus a large thread stack: the observers are recursive
+    # operators over whole traces / texts, and the default 1 MB stack of a TLC worker thread overflowed on
+    # a long trace (seen once, C16 with seed 1, in a fresh sandbox)
+    deps = str(Path(JAR).with_name("CommunityModules-deps.jar"))
+    cp = JAR + (":" + deps if Path(deps).exists() else "")
+    return ["java", "-XX:+UseParallelGC", "-Xss256m", "-cp", cp, "tlc2.TLC"]
 
 
 def write_cfg(path: Path, *, constants: dict[str, str], spec: str = "Spec", view: str | None = "View",
